@@ -299,6 +299,8 @@ def coq_mismatches(name: str, imports: str, ty: str, test: str, cases: Sequence[
         else:
             bad.extend(k + i for i in idx)
         for ext in ('.v', '.vo', '.vok', '.vos', '.glob'):
+            if ext == '.v' and os.environ.get('VERIF_KEEP_CASES'):
+                continue
             try:
                 os.remove(fn[:-2] + ext)
             except FileNotFoundError:
